@@ -158,10 +158,14 @@ def refusal_probe(rep):
     data = os.path.join(common.VERIF, "vlib", "data", "copyprobe")
     _, binp = common.build_goderive()
     out = {"refused": 0, "accepted": 0, "cases_run": 0, "messages": []}
-    for case in ("a", "b"):
+    # a, b: may be refused (unwritable field types). c: structs that EMBED sync.Mutex (held by value, pointer, slice,
+    # array, map) are ordinary data, d: an imported generic struct whose unexported field has the type parameter,
+    # instantiated with an unexported type of the CALLING package (writable there): both MUST be accepted and copied.
+    helper = {"a": "wire", "b": "wire", "c": "wire", "d": "box"}
+    for case in ("a", "b", "c", "d"):
         d = tempfile.mkdtemp(prefix="verif-c05-probe-")
         try:
-            for sub in ("wire", case):
+            for sub in (helper[case], case):
                 os.makedirs(os.path.join(d, sub))
                 for f in os.listdir(os.path.join(data, sub)):
                     shutil.copyfile(os.path.join(data, sub, f), os.path.join(d, sub, f[:-4]))
@@ -170,9 +174,14 @@ def refusal_probe(rep):
             rc, err, to = common.run_goderive(binp, d, ["./" + case], timeout=120, mem_gb=4)
             rep.cov["programs"] += 1
             srcs = {os.path.join(sub, f): open(os.path.join(d, sub, f)).read()
-                    for sub in ("wire", case) for f in os.listdir(os.path.join(d, sub)) if f.endswith(".go") and f != "derived.gen.go"}
+                    for sub in (helper[case], case) for f in os.listdir(os.path.join(d, sub)) if f.endswith(".go") and f != "derived.gen.go"}
             if to:
                 rep.violation("goderive timed out on the copy probe " + case, {"files": srcs}, True)
+                continue
+            if rc != 0 and case in ("c", "d"):
+                rep.violation("goderive refuses a type the copy plugins support (%s): %s" % (
+                    {"c": "structs embedding sync.Mutex", "d": "imported generic struct instantiated with a local unexported type"}[case],
+                    err.strip()[-400:]), {"files": srcs, "cmd": "goderive ./" + case, "output": err[-3000:]}, True)
                 continue
             if rc != 0:
                 # a refusal: no generated code to judge (whether the message is a good one is C09's business)
@@ -188,8 +197,11 @@ def refusal_probe(rep):
             rep.cov["evaluations"] += len(lines)
             gen = open(os.path.join(d, case, "derived.gen.go")).read() if os.path.exists(os.path.join(d, case, "derived.gen.go")) else ""
             if fails:
-                rep.violation("copy of an imported struct that has an unexported field of an unexported type is not equal to the source "
-                              "(goderive accepted the type): " + "; ".join(fails)[:600],
+                rep.violation("copy probe %s (%s): the copy is not equal to / independent of the source: " % (case, {
+                                  "a": "imported struct with an unexported field of an unexported type, accepted by goderive",
+                                  "b": "bytes.Buffer, accepted by goderive", "c": "structs embedding sync.Mutex",
+                                  "d": "imported generic struct over a local unexported type"}[case])
+                              + "; ".join(fails)[:600],
                               {"files": srcs, "derived": gen[:8000], "output": txt[:3000], "cmd": "goderive ./%s && go run ./%s" % (case, case)}, True)
             elif p.returncode != 0 or not lines:
                 rep.violation("the copy probe %s does not build or run with the emitted code: %s" % (case, txt[:600]),
